@@ -1247,6 +1247,168 @@ func (oa *OrderAnalysis) analyse(fs *fnSummary, final bool) []*MapRange {
 			}
 		}
 	}
+	// a field written in one iteration of a map range and read in another: what the reader finds
+	// depends on whether the writer's key came first
+	for _, m := range ranges {
+		if !m.IsMap {
+			continue
+		}
+		type site struct {
+			text string
+			pos  token.Pos
+			stmt ast.Node
+		}
+		var stores, reads []site
+		lhsNodes := map[ast.Node]bool{}
+		var walkStmt func(n ast.Node, stmt ast.Node)
+		walkStmt = func(n ast.Node, stmt ast.Node) {
+			ast.Inspect(n, func(k ast.Node) bool {
+				switch y := k.(type) {
+				case *ast.FuncLit:
+					return false
+				case *ast.AssignStmt:
+					if y.Tok == token.ASSIGN {
+						for _, l := range y.Lhs {
+							if se, ok := ast.Unparen(l).(*ast.SelectorExpr); ok {
+								if _, root, _ := locOf(info, se); root != nil && oa.rootKind(p, fd, m.Stmt, root) != RootLocalInner {
+									stores = append(stores, site{types.ExprString(se), se.Pos(), y})
+									lhsNodes[se] = true
+								}
+							}
+						}
+					}
+				case *ast.SelectorExpr:
+					if !lhsNodes[y] {
+						reads = append(reads, site{types.ExprString(y), y.Pos(), nil})
+					}
+				}
+				return true
+			})
+		}
+		walkStmt(m.Stmt.Body, nil)
+		// reads made for a log line are not outputs of the property
+		var logSpans [][2]token.Pos
+		ast.Inspect(m.Stmt.Body, func(k ast.Node) bool {
+			if call, ok := k.(*ast.CallExpr); ok {
+				name := ""
+				if fn := Callee(info, call); fn != nil {
+					name = fn.Name()
+					if fn.Pkg() != nil && fn.Pkg().Path() == "log" {
+						name = "log." + name
+					}
+				}
+				if strings.HasPrefix(name, "debugLog") || strings.HasPrefix(name, "log.") {
+					logSpans = append(logSpans, [2]token.Pos{call.Pos(), call.End()})
+				}
+			}
+			return true
+		})
+		var kept []site
+		for _, rd := range reads {
+			inLog := false
+			for _, sp := range logSpans {
+				if sp[0] <= rd.pos && rd.pos <= sp[1] {
+					inLog = true
+				}
+			}
+			if !inLog {
+				kept = append(kept, rd)
+			}
+		}
+		reads = kept
+		seenF := map[string]bool{}
+		for _, st := range stores {
+			for _, rd := range reads {
+				if rd.text != st.text || seenF[st.text] {
+					continue
+				}
+				// a read inside a statement that stores the same field (x.f = g(x.f, …)) is an accumulation: the
+				// order taint of what is accumulated is decided elsewhere
+				inStore := false
+				for _, st2 := range stores {
+					if stn, ok := st2.stmt.(*ast.AssignStmt); ok && st2.text == st.text && stn.Pos() <= rd.pos && rd.pos <= stn.End() {
+						inStore = true
+					}
+				}
+				if inStore {
+					continue
+				}
+				seenF[st.text] = true
+				addF(m, "loop-carried field "+PathOf(st.text), fmt.Sprintf("loop-carried dependence through a field: one iteration stores %s and another reads it, so what is read depends on whether the key that stores it was visited first", st.text))
+			}
+		}
+	}
+	// a closure that keeps state between its calls (a captured map or variable it reads and stores),
+	// called from the body of a map range: what it answers depends on which keys were visited before
+	for _, m := range ranges {
+		if !m.IsMap {
+			continue
+		}
+		seenC := map[string]bool{}
+		ast.Inspect(m.Stmt.Body, func(k ast.Node) bool {
+			call, ok := k.(*ast.CallExpr)
+			if !ok {
+				return true
+			}
+			id, ok := ast.Unparen(call.Fun).(*ast.Ident)
+			if !ok || seenC[id.Name] {
+				return true
+			}
+			lit, ok := ast.Unparen(ResolveLocal(info, fd.Body, id)).(*ast.FuncLit)
+			if !ok {
+				return true
+			}
+			// captured objects stored to, and read, inside the literal
+			stored, read := map[types.Object]bool{}, map[types.Object]bool{}
+			captured := func(e ast.Expr) types.Object {
+				for {
+					switch x := ast.Unparen(e).(type) {
+					case *ast.IndexExpr:
+						e = x.X
+					case *ast.SelectorExpr:
+						e = x.X
+					case *ast.Ident:
+						if v, ok := info.Uses[x].(*types.Var); ok && !v.IsField() && (v.Pos() < lit.Pos() || v.Pos() > lit.End()) && v.Parent() != p.Types.Scope() {
+							return v
+						}
+						return nil
+					default:
+						return nil
+					}
+				}
+			}
+			lhs := map[ast.Node]bool{}
+			ast.Inspect(lit.Body, func(n ast.Node) bool {
+				if as, ok := n.(*ast.AssignStmt); ok {
+					for _, l := range as.Lhs {
+						if o := captured(l); o != nil {
+							stored[o] = true
+							lhs[ast.Unparen(l)] = true
+						}
+					}
+				}
+				return true
+			})
+			ast.Inspect(lit.Body, func(n ast.Node) bool {
+				if e, ok := n.(ast.Expr); ok && !lhs[e] {
+					switch e.(type) {
+					case *ast.IndexExpr, *ast.Ident:
+						if o := captured(e); o != nil {
+							read[o] = true
+						}
+					}
+				}
+				return true
+			})
+			for o := range stored {
+				if read[o] {
+					seenC[id.Name] = true
+					addF(m, "closure state "+o.Name(), fmt.Sprintf("the body calls the closure %s, which reads and stores %s between its calls: what it answers for one key depends on the keys visited before", id.Name, o.Name()))
+				}
+			}
+			return true
+		})
+	}
 	// call results that are order-tainted and used unsorted
 	ast.Inspect(fd.Body, func(n ast.Node) bool {
 		as, ok := n.(*ast.AssignStmt)
